@@ -421,7 +421,7 @@ func (w *wrapperCtx) vecElem(vec ssa.Value, k int64, at ssa.Instruction) ([]ssa.
 		if _, ok := u.X.(*ssa.FreeVar); ok {
 			var out []ssa.Value
 			for _, pv := range resolveCapturedLoad(u) {
-				vals, fresh, unk := vecElemAt(w.eff, pv, k, w.m.GoInstr)
+				vals, fresh, unk := vecElemAt(w.eff, pv, k, w.m.SpawnAt)
 				if unk != "" {
 					return nil, unk
 				}
@@ -514,6 +514,7 @@ func checkC04(p *Program, r *Report) {
 	r.Floor("R04.1", "vectorised wrappers", n, 41)
 	checkNoAppendOnShared(p, r, models)
 	checkInitStatesWidth(p, r, models)
+	checkOwnCellIndex(p, r, models, "R04.9", true)
 	// R04.7: Run touches nothing else — no package-level writes from anything a Run reaches
 	{
 		r.Rule("R04.7", "Run touches nothing else: no function reachable from any wrapper's Run writes a package-level variable (cells would read each other's intermediate values)")
